@@ -264,6 +264,17 @@ slab_bytes (int m, int b, int pos, int full)
   all_ways (m, "pw", buf, 0, "truncation", rp, 1);
 }
 
+/* cost parameters outside the ranges crypt.5 documents: "malformed parameters" must fail closed */
+static const char *const bad_cost[] = {
+  "$6$rounds=999$saltSALT", "$6$rounds=1000000000$saltSALT", "$6$rounds=4294967295$saltSALT", "$6$rounds=4294968296$saltSALT", "$6$rounds=8589935592$saltSALT",
+  "$6$rounds=18446744073709552616$saltSALT", "$6$rounds=0$saltSALT", "$6$rounds=01000$saltSALT",
+  "$5$rounds=999$saltSALT", "$5$rounds=1000000000$saltSALT", "$5$rounds=4294968296$saltSALT", "$5$rounds=4294972296$saltSALT", "$5$rounds=281474976711656$saltSALT",
+  "$2b$03$abcdefghijklmnopqrstuu", "$2b$32$abcdefghijklmnopqrstuu", "$2a$00$abcdefghijklmnopqrstuu", "$2y$99$abcdefghijklmnopqrstuu", "$2x$3$abcdefghijklmnopqrstuuu",
+  "$md5,rounds=0$saltSALT", "$md5,rounds=4294967296$saltSALT", "$md5,rounds=01$saltSALT", "$md5$rounds=18446744073709551617$saltSALT",
+  "$7$./..../....saltSALT", "$7$4...../....saltSALT", "$7$4/.........saltSALT", "$y$j.5$saltSALT", "$gy$j.5$saltSALT",
+  "$sha1$x$saltSALT", 0
+};
+
 static void
 slab_fixed (int which)
 {
@@ -291,9 +302,15 @@ slab_fixed (int which)
       case 11: all_ways (m, "pw", "*0$1$saltSALT", 1, "token-prefixed-setting", rp, 1); break;
       case 12: all_ways (m, "pw", "!", 1, "locked-account-marker", rp, 1); break;
       case 13: all_ways (m, "pw", "x", 1, "one-character", rp, 1); break;
+      case 14:
+        if (m == 0)
+          for (int i = 0; bad_cost[i]; i++)
+            all_ways (M_NT, "pw", bad_cost[i], 1, "cost-out-of-documented-range", rp, 1);
+        break;
       }
 }
-#define NFIXED 14
+#define NFIXED 15
+
 
 /* unknown prefixes: '$' + every 1- and 2-character tag + '$' that no method owns */
 static const char TAGCH[] = A64 ",";
